@@ -25,7 +25,7 @@ func VerifH08aFailedLoadsThenValid() {
 	shutdownCallbacksOnce = sync.Once{}
 	Quiet = true
 
-	faults := []string{"parse", "setup", "startup", "listen"}
+	faults := []string{"parse", "setup", "startup", "listen", "listenpacket"}
 	nfail := verifrt.IntRange("failed-attempts", 0, 2)
 	for i := 0; i < nfail; i++ {
 		f := faults[verifrt.Choose("fault", len(faults))]
